@@ -1,7 +1,7 @@
 """C04 — events and response data are composed per wasmd rules (DESIGN.md §5 C04)."""
 from vlib import q
 from vlib.cfg import cfg_of
-from vlib.prov import peel, fmt, is_param, contains, alts, deep_peel, same_origin, leaves, is_param_field, format_parts
+from vlib.prov import peel, fmt, is_param, contains, alts, deep_peel, same_origin, leaves, is_param_field, format_parts, just
 from rules import submsg
 
 LEVEL = "other"
@@ -376,6 +376,17 @@ def r4(ctx, cfg):
     for bid, i, st in f.stmts():
         if st["k"] == "assign" and st["dst"]["l"] == 0 and not st["dst"]["p"] and st["rv"].get("k") == "aggregate" and st["rv"].get("variant") == "Ok" and st["rv"].get("adt") == "std::result::Result":
             rets.append((bid, i, st))
+    # (a shortcut for the case in which the fold below has nothing to do - `if sub_messages.is_empty() { return Ok(response) }` -
+    #  answers what the fold would: the argument as it is; accepted only under exactly that test)
+    short = []
+    for bid, i, st in list(rets):
+        pay0 = P.operand(f, st["rv"]["ops"][0], (bid, i))
+        if just(pay0, lambda o: is_param(o, "response")) and not contains(pay0, lambda x: x[0] == "upd"):
+            cs = [c for e, c in q.dominating_conditions(P, f, bid) if c[0] == "bool" and not q.is_derived(c)]
+            if len(cs) == 1 and cs[0][1][0] == "is_empty" and cs[0][1][2] is True and is_param(cs[0][1][1][0], "sub_messages"):
+                short.append((bid, i, st))
+    if len(rets) - len(short) == 1:
+        rets = [r for r in rets if r not in short]
     ctx.ob(R, key, "one-returned-AppResponse", len(rets) == 1, "expected one Ok(..) return in process_response, found %d" % len(rets), fn=f, sample="1")
     if len(rets) != 1:
         return
